@@ -300,12 +300,17 @@ class ComponentContext(Context):
                 self._format_resource_description(type, name),
             )
 
-            # Wait until a matching resource or resource factory is available
-            await self._context.resource_added.wait_event(
-                lambda event: event.resource_name == name
-                and type in event.resource_types,
-            )
-            res = await self._context.get_resource(type, name)
+            # Wait until a matching resource or resource factory is available,
+            # looking again after every event as the matching one may get dropped
+            # if the event queue fills up
+            async with self._context.resource_added.stream_events() as events:
+                while True:
+                    try:
+                        res = await self._context.get_resource(type, name)
+                        break
+                    except ResourceNotFound:
+                        await events.__anext__()
+
             logger.debug(
                 "%s got the resource it was waiting for (%s)",
                 format_component_name(self.path, capitalize=True),
